@@ -171,6 +171,76 @@ func pwGenFlavour(r *core.Rand, env *core.Env, c *PCase, flav string) {
 			add(run(core.Pick(r, []int{3000, 9000})))
 			add(w(false), POp{K: "read"})
 		}
+	case "flush_mid_batch":
+		// A follower misses >= 3 committed writes (its links are cut, or the process is paused), then
+		// gets them back in ONE append message and therefore as ONE commit batch; its apply loop is
+		// parked between the first and the second entry of that batch (apply_yield, p_yield.go), the
+		// node's memtable is flushed there - the flush records the partition's raft snapshot index -,
+		// the apply loop runs to the end of the batch, the node is killed (complete journal, earliest
+		// legal instant, or part of the tail lost) before its next flush and restarted: everything the
+		// flush did not write must come back from the raft log.  Then another node is killed so that
+		// the restarted one is relied upon; the closing phase compares all replicas.
+		c.Yield = r.Bool(0.5)
+		for k := r.Range(1, 3); k > 0; k-- {
+			add(w(false))
+		}
+		settle()
+		if r.Bool(0.3) {
+			add(POp{K: "xfer", Seed: r.Uint64()})
+			settle()
+		}
+		rounds := r.Range(1, 2)
+		for k := 0; k < rounds; k++ {
+			cutOp := POp{K: "part", Sel: "follower"}
+			if r.Bool(0.25) {
+				cutOp.Pause = true
+			}
+			add(cutOp)
+			for j := r.Range(3, 6); j > 0; j-- {
+				add(w(false))
+			}
+			if r.Bool(0.3) {
+				add(run(400))
+			}
+			add(POp{K: "heal"})
+			add(POp{K: "run", Ms: 4000, Until: "parked", Seed: r.Uint64()})
+			kill := POp{K: "crash", Sel: "yielded", Seed: r.Uint64()}
+			switch r.Intn(10) {
+			case 0, 1:
+				kill.Early = true // right after the victim's last observed action
+			case 2, 3:
+				kill.Back = r.Range(1, 600)
+			}
+			switch v := r.Intn(10); {
+			case v < 6:
+				add(POp{K: "flush", Sel: "parked"}, POp{K: "aresume", Sel: "parked", All: true})
+				if r.Bool(0.5) {
+					// the node's acknowledgements reach the leader: kills "at the earliest legal instant" lie after the flush
+					add(POp{K: "pump", N: r.Range(1, 6), Seed: r.Uint64()})
+				}
+				add(kill, POp{K: "restart"})
+			case v < 8:
+				// killed inside the batch, after the flush
+				add(POp{K: "flush", Sel: "parked"}, POp{K: "crash", Sel: "parked", Seed: r.Uint64()}, POp{K: "restart"})
+			case v < 9:
+				// one more entry, then the flush
+				add(POp{K: "aresume", Sel: "parked"}, POp{K: "flush", Sel: "parked"}, POp{K: "aresume", Sel: "parked", All: true}, kill, POp{K: "restart"})
+			default:
+				// no kill: flush inside the batch, then a clean continuation
+				add(POp{K: "flush", Sel: "parked"}, POp{K: "aresume", Sel: "parked", All: true})
+			}
+			add(run(core.Pick(r, []int{1200, 3000, 5000})))
+			if r.Bool(0.7) {
+				// the restarted node is relied upon
+				add(POp{K: "crash", Sel: core.Pick(r, []string{"leader", "master", "master"}), Seed: r.Uint64()})
+				add(run(core.Pick(r, []int{9000, 12000})), POp{K: "read"})
+				if r.Bool(0.5) {
+					add(w(false), POp{K: "read"})
+				}
+				add(POp{K: "restart"}, run(core.Pick(r, []int{1200, 5000})))
+			}
+		}
+		add(w(false), POp{K: "read"})
 	case "send_kill_storm":
 		// the general mix, re-weighted: few deliveries at a time, the clock moving without
 		// deliveries, slow links, and kills at the earliest legal instant
@@ -238,4 +308,47 @@ func pwGenFlavour(r *core.Rand, env *core.Env, c *PCase, flav string) {
 			}
 		}
 	}
+}
+
+// pwGenApplyYield draws the apply-path yield knob (p_yield.go) - LAST, so that everything
+// else of a case is what its seed produced before the knob existed - and, where it is on
+// in a case of the general mix, inserts steps that use it behind the steps after which a
+// node catches up (heal, restart): run until an apply loop is parked inside a commit
+// batch, flush that node, then kill it there / let the batch finish and kill it / go on.
+func pwGenApplyYield(r *core.Rand, env *core.Env, c *PCase) {
+	if pwApplyYieldOff() {
+		return
+	}
+	switch c.Flav {
+	case "flush_mid_batch":
+		c.ApplyYield, c.ApplyHold = 1, 100 // every step of the flavour is explicit
+		return
+	case "ack_kill", "leader_ack_kill", "vote_kill":
+		return // choreographed to the message
+	}
+	if !r.Bool(0.15) {
+		return
+	}
+	c.ApplyYield = core.Pick(r, []int{1, 1, 2, 3})
+	var ops []POp
+	for _, op := range c.Ops {
+		ops = append(ops, op)
+		if (op.K != "heal" && op.K != "restart") || !r.Bool(0.6) {
+			continue
+		}
+		ops = append(ops, POp{K: "run", Ms: 2000, Until: "parked", Seed: r.Uint64()}, POp{K: "flush", Sel: "parked"})
+		switch r.Intn(4) {
+		case 0:
+			ops = append(ops, POp{K: "crash", Sel: "parked", Seed: r.Uint64()}, POp{K: "restart"})
+		case 1:
+			kill := POp{K: "crash", Sel: "yielded", Seed: r.Uint64()}
+			if r.Bool(0.3) {
+				kill.Back = r.Range(1, 600)
+			}
+			ops = append(ops, POp{K: "aresume", Sel: "parked", All: true}, kill, POp{K: "restart"})
+		case 2:
+			ops = append(ops, POp{K: "aresume", Sel: "parked", All: true})
+		}
+	}
+	c.Ops = ops
 }
